@@ -837,12 +837,16 @@ func init() {
 	core.Register(&core.Check{
 		ID:          "C09",
 		Level:       "exploration",
-		Rule:        "case = one free-running run (race detector build, thread-safe Observer installed) of N in 1..6 readers x M in 1..3 writers (commit / rollback / close / injected failing commits) and, in half of the cases, a closer calling File.Close while transactions are open; a third of the cases start with an Open that updates the max size (open-time maintenance transactions); monitors = exact writer count from begin/unlock hook events (<=1), lock state idle after open and after the run (hook), state-based deadlock detector (no progress + all workers parked on go-txfile locks, goroutine dump as witness), race detector reports (process-fatal, deduplicated by top frames), reader content oracle as in C02; distinct = (N,M,commits,reader tx,interleaving points); non-trivial = >=3 commits and >=3 reader transactions",
+		Rule:        "case = one free-running run (race detector build, thread-safe Observer installed) of N in 1..6 readers x M in 1..3 writers (commit / rollback / close / injected failing commits) and, in half of the cases, a closer calling File.Close while transactions are open; a third of the cases start with an Open that updates the max size (open-time maintenance transactions); monitors = exact writer count from begin/unlock hook events (<=1), lock state idle after open and after the run (hook), state-based deadlock detector (no progress + all workers parked on go-txfile locks, goroutine dump as witness), race detector reports (process-fatal, deduplicated by top frames), reader content oracle as in C02; every 4th case instead runs the cooperative scheduler: actor sets {1-2 readers, 1-2 writers (commit/rollback), closer} stepped one at a time at API boundaries and lock-adjacent hook points, would-block predicates evaluated on the hooked lock state, all schedules with <=2 (quick) / <=3 (thorough) preemptions enumerated depth-first up to a budget, deadlock = no enabled actor (state fact), lock leak at the end, reader view vs completed commits; distinct = (N,M,commits,reader tx,interleaving points); non-trivial = >=3 commits and >=3 reader transactions",
 		Assumptions: append([]string{"a Begin is never started after File.Close was called (documented precondition); transactions open at that time overlap with Close", "a run that does not finish without the deadlock detector's state facts is reported as inconclusive (watchdog), never as violation"}, simdiskAssumptions...),
 		NumCases:    func(t string) int { return tierN(t, 96, 12000) },
 		Race:        func(t string, i int) bool { return true },
 		CaseTimeout: func(t string) time.Duration { return 5 * time.Minute },
 		Run: func(c *core.Case) *core.Result {
+			if c.Idx%4 == 3 {
+				// cooperative scheduler: enumerated schedules of small actor sets
+				return runSchedCase(c)
+			}
 			sc := stressCfg{Readers: 1 + c.R.Intn(6), Writers: 1 + c.R.Intn(3), TxPerWriter: 10 + c.R.Intn(20), Perturb: c.R.Chance(1, 2),
 				HoldMax: []int{0, 5, 50, 200}[c.R.Intn(4)], Faults: c.R.Chance(1, 3), Closer: c.R.Chance(1, 2), Resize: c.R.Chance(1, 3)}
 			return runStress(c, "C09", sc)
@@ -850,6 +854,9 @@ func init() {
 		Finalize: func(a *core.Aggregate) error {
 			if a.Stats["commits_ok"] == 0 || a.Stats["rollbacks"] == 0 || a.Stats["commits_failed"] == 0 {
 				return fmt.Errorf("commit/rollback/failing commit not all observed")
+			}
+			if a.Stats["distinct_schedules"] == 0 {
+				return fmt.Errorf("cooperative scheduler executed no schedule")
 			}
 			if a.Maxes["concurrent_writers_seen"] != 1 {
 				return fmt.Errorf("writer count monitor saw max %d", a.Maxes["concurrent_writers_seen"])
